@@ -1,6 +1,6 @@
 (* C05 -- audited obligations.  Models: coq/Grid/{QVec,IntLin,GridSem,GridRef}.v *)
 From Coq Require Import List ZArith QArith Qabs Bool.
-Require Import PPLV.Grid.QVec PPLV.Grid.IntLin PPLV.Grid.GridSem PPLV.Grid.GridRef PPLV.Grid.GridFreq PPLV.Grid.GridOps2 PPLV.Grid.GridOpsSpec PPLV.Grid.GridOpsSpec2 PPLV.Grid.GridOpsSpec3.
+Require Import PPLV.Grid.QVec PPLV.Grid.IntLin PPLV.Grid.GridSem PPLV.Grid.GridRef PPLV.Grid.GridFreq PPLV.Grid.GridOps2 PPLV.Grid.GridOpsSpec PPLV.Grid.GridOpsSpec2 PPLV.Grid.GridOpsSpec3 PPLV.Grid.GridOpsSpec4.
 Import ListNotations.
 Local Open Scope Q_scope.
 
@@ -168,6 +168,24 @@ Proof. exact add_gen_sound. Qed.
 Theorem subsumes_yes : forall n G g, subsumes n G g = Ans true ->
   forall x, in_qgens n (add_gen G g) x <-> in_qgens n G x.
 Proof. exact subsumes_sound. Qed.
+
+(* variable-form generalized affine PREIMAGE, add_space_dimensions_and_project (on congruences), discreteness
+   (coq/Grid/GridOpsSpec4.v) *)
+Theorem generalized_affine_preimage_exact : forall n k a b d m G G', gen_preimage n k a b d m G = Ans G' ->
+  (k < n)%nat -> (length a <= n)%nat ->
+  forall x, in_qgens n G' x <->
+    exists (v : Q) (z : Z), in_qgens n G (upd x k v) /\
+      inject_Z d * v == expr_val a b x + inject_Z z * inject_Z (d * m).
+Proof. exact gen_preimage_spec. Qed.
+Theorem add_space_dimensions_and_project_exact : forall n m C x, sat_cgs (C ++ project_cgs n m) x <->
+  sat_cgs C x /\ forall i, (n <= i < n + m)%nat -> x i == 0.
+Proof. exact project_spec. Qed.
+Theorem is_discrete_false_exact : forall n G, is_discrete_b n G = false <->
+  (exists x, in_qgens n G x) /\ exists l, In l (glines G) /\ ~ peq n (vnth l) (vnth vzero).
+Proof. exact is_discrete_false_spec. Qed.
+Theorem line_direction_is_dense : forall n G l x, In l (glines G) -> in_qgens n G x ->
+  forall q : Q, in_qgens n G (fun i => x i + q * vnth l i).
+Proof. exact line_direction_dense. Qed.
 
 (* ---------- stated, NOT proved (kept as Props; nothing depends on them) ---------- *)
 (* grid_incl_sound / grid_equiv_sound / grid_dd_check_sound are the proved halves of these: *)
